@@ -25,6 +25,7 @@ Theorem qcow2_accepts h : qcow2_gate h = Ok tt ->
   q_magic h = 1363560955 /\ 2 <= q_version h <= 3 /\ 9 <= q_cluster_bits h <= 21 /\ q_crypt h = 0 /\
   512 <= qcow2_subcluster_size h /\
   (q_compression h = 1 -> q_has_zstd h = true) /\
+  Z.land (q_incompat h) (Z.lnot 31) = 0 /\
   (Z.land (q_incompat h) 4 <> 0 -> q_data_file_given h = true) /\
   (q_backing_offset h <> 0 -> q_backing_given h = true).
 Proof.
@@ -33,6 +34,7 @@ Proof.
   change Gen.Consts.qcow2_MIN_CLUSTER_BITS with 9 in *. change Gen.Consts.qcow2_MAX_CLUSTER_BITS with 21 in *.
   change Gen.Consts.qcow2_QCOW2_COMPRESSION_TYPE_ZSTD with 1 in *.
   change Gen.Consts.qcow2_QCOW2_INCOMPAT_DATA_FILE with 4 in *.
+  change Gen.Consts.qcow2_QCOW2_INCOMPAT_MASK with 31 in *.
   destruct (Z.eqb_spec (q_magic h) 1363560955) as [Em|Em]; cbn [negb gate bind] in H; [|discriminate].
   destruct (Z.ltb_spec (q_version h) 2) as [Ev1|Ev1]; cbn [orb gate bind] in H; [discriminate|].
   destruct (Z.ltb_spec 3 (q_version h)) as [Ev2|Ev2]; cbn [gate bind] in H; [discriminate|].
@@ -41,10 +43,11 @@ Proof.
   destruct ((q_compression h =? 1) && negb (q_has_zstd h)) eqn:Ez; cbn [gate bind] in H; [discriminate|].
   destruct (Z.ltb_spec (qcow2_subcluster_size h) (2 ^ 9)) as [Es|Es]; cbn [gate bind] in H; [discriminate|].
   destruct (Z.eqb_spec (q_crypt h) 0) as [Ecr|Ecr]; cbn [negb gate bind] in H; [|discriminate].
+  destruct (Z.eqb_spec (Z.land (q_incompat h) (Z.lnot 31)) 0) as [Eu|Eu]; cbn [negb gate bind] in H; [|discriminate].
   destruct (negb (Z.land (q_incompat h) 4 =? 0) && negb (q_data_file_given h)) eqn:Ed; cbn [gate bind] in H; [discriminate|].
   destruct (negb (q_backing_offset h =? 0) && negb (q_backing_given h)) eqn:Eb; cbn [gate bind] in H; [discriminate|].
   change (2 ^ 9) with 512 in Es.
-  repeat split; try lia.
+  repeat split; try lia; try assumption.
   - intros E. rewrite E in Ez. cbn in Ez. now destruct (q_has_zstd h).
   - intros E. apply Z.eqb_neq in E. rewrite E in Ed. cbn in Ed. now destruct (q_data_file_given h).
   - intros E. apply Z.eqb_neq in E. rewrite E in Eb. cbn in Eb. now destruct (q_backing_given h).
@@ -106,6 +109,17 @@ Proof.
   - left. now apply zlist_eqb_eq.
   - right; left. now apply zlist_eqb_eq.
   - right; right. now apply zlist_eqb_eq.
+Qed.
+
+Theorem vmdk_footer_accepts hm uf fm : vmdk_footer_gate hm uf fm = Ok tt ->
+  (hm = Gen.Consts.vmdk_VMDK_MAGIC \/ hm = Gen.Consts.vmdk_SESPARSE_MAGIC \/ hm = Gen.Consts.vmdk_COWD_MAGIC) /\
+  (uf = true -> fm = Gen.Consts.vmdk_VMDK_MAGIC \/ fm = Gen.Consts.vmdk_COWD_MAGIC).
+Proof.
+  unfold vmdk_footer_gate. intros H.
+  destruct (vmdk_sparse_gate hm) as [[]| |] eqn:E1; try discriminate. cbn [bind] in H.
+  split; [now apply vmdk_sparse_accepts|]. intros ->.
+  apply gate_ok, negb_false_iff, orb_true_iff in H.
+  destruct H as [H|H]; [left|right]; now apply zlist_eqb_eq.
 Qed.
 
 Lemma existsb_false_forall {A} (f : A -> bool) l : existsb f l = false -> forall x, In x l -> f x = false.
@@ -195,6 +209,7 @@ Lemma raises_pinned :
      ("(self.compression_type == c_qcow2.QCOW2_COMPRESSION_TYPE_ZSTD and (not HAS_ZSTD))", "RuntimeError");
      ("(self.subcluster_size < 1 << c_qcow2.MIN_CLUSTER_BITS)", "InvalidHeaderError");
      ("(self.header.crypt_method)", "NotImplementedError");
+     ("(self.header.incompatible_features & ~QCOW2_INCOMPAT_MASK)", "InvalidHeaderError");
      ("(self.header.incompatible_features & c_qcow2.QCOW2_INCOMPAT_DATA_FILE) and (data_file is None)", "Error");
      ("(self.header.backing_file_offset) and (backing_file is None)", "Error")].
 Proof. repeat split. Qed.
